@@ -32,12 +32,13 @@ META = {
     "outside": ["whether canonicalize() reaches the requested window with the fewest moves",
                 "calc_current_orthog_center / count_canonized (numerical detector using allclose): a record is always supplied",
                 "cyclic MPS", "truncating calls", "random sampling statistics (outcomes are fixed / enumerated)",
-                "complex entries in symbolic mode (np.real on object arrays); complex data only in numeric cross-runs where the kind is cplx"],
+                "complex entries in the history / canonicalize_window families (real symbols there; complex states and operators are symbolic in the consumer family, L = 3, kind=cplx cells)"],
     "assumptions": ["LAPACK qr/svd return factors meeting their contracts (stubs); QR stub has positive diagonal",
                     "singular values strictly positive (generic full-rank state)"],
 }
 
 D, d = 2, 2
+KIND = ["real"]          # entry kind of the operator / gate arrays drawn by apply_op (set by the obligation)
 
 
 def mps_sym(mk, L, kind="real"):
@@ -141,7 +142,7 @@ def apply_op(mk, psi, info, op, k):
         return psi, want
     if kind == "gate1":
         i = op[1]
-        G = mk.array(f"G{k}", (d, d), "real")
+        G = mk.array(f"G{k}", (d, d), KIND[0])
         want = gate_ref(G, (i,), L, before)
         psi.gate_(G, i, contract=True, info=info)
         # gate() accepts the record; for a (non-unitary) gate outside the recorded range it leaves the
@@ -186,7 +187,7 @@ def apply_op(mk, psi, info, op, k):
         return psi, before
     if kind == "expec":
         where = op[1]
-        G = mk.array(f"O{k}", (d ** len(where), d ** len(where)), "real")
+        G = mk.array(f"O{k}", (d ** len(where), d ** len(where)), KIND[0])
         val = psi.local_expectation_canonical(G, where, normalized=False, info=info)
         v = before.reshape(-1)
         want = ref.matmul(_conj(v).reshape(1, -1), ref.matmul(ref.embed(G, [d] * L, where), v).reshape(-1, 1))[0, 0]
@@ -210,7 +211,7 @@ def apply_op(mk, psi, info, op, k):
         want = 0
         v = before.reshape(-1)
         for q_, w_ in enumerate(wheres):
-            G = mk.array(f"O{k}_{q_}", (d ** len(w_), d ** len(w_)), "real")
+            G = mk.array(f"O{k}_{q_}", (d ** len(w_), d ** len(w_)), KIND[0])
             terms[w_] = G
             want = want + ref.matmul(_conj(v).reshape(1, -1), ref.matmul(ref.embed(G, [d] * L, w_), v).reshape(-1, 1))[0, 0]
         rec0 = info.get("cur_orthog")
@@ -224,11 +225,13 @@ def apply_op(mk, psi, info, op, k):
         return psi, before
     if kind == "mag":
         i = op[1]
-        val = psi.magnetization(i, "Z", info=info)
-        Z = mk.const(np.array([[0.5, 0.0], [0.0, -0.5]]))
+        dirn = op[2] if len(op) > 2 else "Z"
+        val = psi.magnetization(i, dirn, info=info)
+        Z = mk.const({"Z": np.array([[0.5, 0.0], [0.0, -0.5]]), "X": np.array([[0.0, 0.5], [0.5, 0.0]]),
+                      "Y": np.array([[0.0, -0.5j], [0.5j, 0.0]])}[dirn])
         v = before.reshape(-1)
         want = ref.matmul(_conj(v).reshape(1, -1), ref.matmul(ref.embed(Z, [d] * L, (i,)), v).reshape(-1, 1))[0, 0]
-        mk.eq(f"op{k}: magnetization({i}) == <psi|Sz_i|psi>", val, want)
+        mk.eq(f"op{k}: magnetization({i}, {dirn}) == <psi|S{dirn.lower()}_i|psi>", val, want)
         return psi, before
     if kind == "measure":
         _, site, outcome, remove = op
@@ -284,7 +287,7 @@ _T = ("thorough",)
 # arbitrary state satisfying the invariant (covers histories of any length, given that every
 # operation re-establishes the invariant, which the `history` family checks)
 
-def canonical_mps(mk, L, c):
+def canonical_mps(mk, L, c, kind="real"):
     """MPS with free entries subject to: sites < lo left-isometric, sites > hi right-isometric, where
     (lo, hi) = c (an int c means (c, c)).
     Symbolic mode: the isometry relations are hypotheses on the leaf symbols.
@@ -292,7 +295,7 @@ def canonical_mps(mk, L, c):
     lo, hi = (c, c) if isinstance(c, int) else c
     shapes = [(D, d) if i in (0, L - 1) else (D, D, d) for i in range(L)]
     if mk.sym:
-        arrays = [mk.array(f"A{i}", shapes[i], "real") for i in range(L)]
+        arrays = [mk.array(f"A{i}", shapes[i], kind) for i in range(L)]
         for i in range(L):
             a = arrays[i]
             if lo <= i <= hi:
@@ -304,15 +307,15 @@ def canonical_mps(mk, L, c):
                 # 2D site 0 has axes (bond, phys): matrix (phys x bond)
             else:          # right isometry: sum over (right bond, phys) -> identity on left bond
                 m = a.T if a.ndim == 2 else np.transpose(a, (1, 2, 0)).reshape(-1, a.shape[0])
-            g = m.T.dot(m)
+            g = _conj(m).T.dot(m)
             for x in range(g.shape[0]):
-                for y in range(x, g.shape[1]):
+                for y in range(x if kind == "real" else 0, g.shape[1]):     # complex: both (x,y) and its conjugate (y,x)
                     P.HYP.append((f"canon-hyp site{i}[{x},{y}]", g[x, y] - (1 if x == y else 0)))
         return qtn.MatrixProductState(arrays)
     # numeric: work with (left, right, phys) arrays, dummy bonds of size 1 at the ends
     arrs = []
     for i in range(L):
-        a = np.asarray(mk.array(f"A{i}", shapes[i], "real"))
+        a = np.asarray(mk.array(f"A{i}", shapes[i], kind))
         if i == 0:
             a = a[None, :, :]                 # (1, r, p)
         elif i == L - 1:
@@ -332,6 +335,7 @@ def canonical_mps(mk, L, c):
         k = q.shape[1]
         arrs[i] = np.transpose(q.reshape(r, p, k), (2, 0, 1))
         arrs[i - 1] = np.transpose(np.tensordot(arrs[i - 1], rr, (1, 1)), (0, 2, 1))
+    # (plain transposes: A_i = (Q R)^T-type factorisations, valid for complex data as well)
     arrs[0] = arrs[0][0]
     arrs[-1] = arrs[-1][:, 0, :]
     return qtn.MatrixProductState(arrs)
@@ -364,11 +368,20 @@ for L_, recs in ((3, ((0, 1), (1, 2), (0, 2))), (4, ((1, 2), (0, 2), (1, 3), (2,
             _CONS.append({"L": L_, "c": rec_, "op": op_, "_tiers": _Q if quick else _T, "_mandatory": bool(quick) or L_ == 3})
 
 
+# complex states (conjugation slips are invisible on real data): third round
+for c_ in (0, 1, 2):
+    for op_ in [("expec", (1,)), ("expec", (0, 1)), ("expec", (2, 1)), ("rdm", (1,)), ("rdm", (1, 0)), ("mag", 1, "Y"), ("mag", 0, "Y"),
+                ("mag", 2, "X"), ("gate1", 1), ("svals", 1), ("measure", 1, 1, False), ("clec", ((0,), (2, 1)), False)]:
+        _CONS.append({"L": 3, "c": c_, "op": op_, "kind": "cplx", "_tiers": _Q if c_ == 1 or op_[0] in ("mag", "rdm") else _T,
+                      "_mandatory": c_ == 1 or op_[0] in ("mag", "rdm")})
+
+
 @obligation(PROP, params=_CONS, rounds=2, timeout_s=300, max_rows=60000, wall_s=250, solver_timeout_ms=60000)
-def consumer(mk, L, c, op):
+def consumer(mk, L, c, op, kind="real"):
     """a consumer of the canonical form, called with a true record (c, c) on an arbitrary state
     in that form: value == dense definition, outgoing record sound"""
-    psi = canonical_mps(mk, L, c)
+    KIND[0] = kind
+    psi = canonical_mps(mk, L, c, kind)
     info = {"cur_orthog": (c, c) if isinstance(c, int) else tuple(c)}
     check_record(mk, psi, info, "premise")   # the premise itself (trivially certified from the hypotheses)
     psi2, want = apply_op(mk, psi, info, op, 0)
